@@ -228,7 +228,8 @@ def worker(case: Dict[str, Any]) -> CaseResult:
             tokens["Upload"] = lambda n: "upload-tok#%d" % n
         scalar_expect = {n: out_expect(n) for n in scalars}
         server = RefServer(schema_ref)
-        client, is_async = make_client(pkg, cfg, server)
+        from ..deps import make_tracer
+        client, is_async = make_client(pkg, cfg, server, make_tracer() if (case.get("cfg") or {}).get("_tracer") else None)  # the traced code path is a different one
         methods = find_methods(pkg, cfg, names)
         op_nodes = {d.name.value: d for d in authored.definitions if isinstance(d, OperationDefinitionNode)}
 
